@@ -533,7 +533,7 @@ def _run(ctx, runner):
         names = g.names(rnd.randrange(3, 25))
         medium.append((names, g.records(rnd.randrange(9, 121), names)))
     # record lines whose length sweeps across 1024 / 2048 / 4096 bytes (plausible sizes of an internal formatting buffer)
-    for lo, hi in ((985, 1030), (2010, 2052), (4058, 4100)) if not quick else ((985, 1030), (2030, 2050)):
+    for lo, hi in ((985, 1030), (2010, 2052), (4058, 4100)) if not quick else ((988, 1012),):
         names = [b'sweep/%d/' % n + b'x' * (n - 7 - len(str(n))) for n in range(lo, hi)]
         names = [b'short1', b'short2'] + names
         medium.append((names, [Rec(nm, 1, 2, 3 + i, 0, b'sweep-cmd-%d' % i) for i, nm in enumerate(names)]))
